@@ -11,7 +11,7 @@ from vp.props import c10
 
 PID = 'C12'
 LEVEL = 'exploration'
-RULE = ("seeded scalar (vectorize=False) models over the documented function set (sigmoid, absv, sin, cos, tanh, exp, algebraic "
+RULE = ("seeded scalar (vectorize=False) models over the documented function set (sigmoid, absv, sin, cos, tanh, exp, arctan, sinh, cosh, algebraic "
         "intermediates, edges, several operators) and DDE models with delays on arbitrary state variables and products of "
         "delayed and instantaneous factors; J(t, y, *args) from get_jacobian_func is compared entry by entry with 6th-order "
         "central differences of the vector field returned by get_run_func for the same spec (state orderings must be "
@@ -24,7 +24,7 @@ DECIDING = ['entries_compared', 'offdiag_nonzero_entries', 'hist_entries_compare
 ASSUMPTIONS = ['probe points whose finite differences with step h and h/2 disagree (kinks of absv/maxi) are discarded',
                'history Jacobians are matched to delays as a set (the API does not name them)']
 CASE_TIMEOUT = 240
-FOCUS = ['absv_in_de', 'sin_or_cos_in_de', 'delay_on_nonfirst_state']
+FOCUS = ['absv_in_de', 'sin_or_cos_in_de', 'delay_on_nonfirst_state', 'inverse_trig_in_de']
 FUNCS = ('tanh', 'sigmoid', 'exp')
 
 
@@ -48,6 +48,9 @@ def warmup(ctx):
     import scipy.sparse  # noqa
     ctx['open_risks'] = open_risks(PID)
     ctx['excluded'] = open_risks('C01') | open_risks('C10')
+    import math
+    from vp import expr as E
+    E.F64['arctan'] = math.atan
     monitors.install()
 
 
@@ -88,6 +91,10 @@ def make_case(case, ctx):
                     funcs.append('absv')
                 if want == 'sin_or_cos_in_de' or ('sin_or_cos_in_de' not in opened and rnd.random() < 0.5):
                     funcs += ['sin', 'cos']
+                if want == 'inverse_trig_in_de' or ('inverse_trig_in_de' not in opened and rnd.random() < 0.35):
+                    funcs.append('arctan')      # functions whose PyRates name is not sympy's (arctan vs atan)
+                if rnd.random() < 0.3:
+                    funcs += ['sinh', 'cosh']
                 spec, feats, risk = gen.gen_net(rnd, pool=gen.SAFE_POOL, n_nodes=rnd.choice([1, 2, 3]), max_types=2,
                                                 depth=rnd.choice([0, 0, 1]), forbid=ctx['excluded'], funcs=tuple(funcs))
                 info = None
@@ -101,6 +108,8 @@ def make_case(case, ctx):
                 r.add('absv_in_de')
             if fs & {'sin', 'cos'}:
                 r.add('sin_or_cos_in_de')
+            if fs & {'arctan', 'arcsin', 'arccos'}:
+                r.add('inverse_trig_in_de')
             if info and info['nonfirst']:
                 r.add('delay_on_nonfirst_state')
             if want and want not in r:
@@ -116,6 +125,8 @@ def make_case(case, ctx):
         r.add('absv_in_de')
     if fs & {'sin', 'cos'}:
         r.add('sin_or_cos_in_de')
+    if fs & {'arctan', 'arcsin', 'arccos'}:
+        r.add('inverse_trig_in_de')
     if info and info['nonfirst']:
         r.add('delay_on_nonfirst_state')
     return spec, info, sorted(r), sorted(fs)
